@@ -264,6 +264,7 @@ func (c *cursor) skipSpace() bool {
 
 var defPatterns = map[string]*regexp.Regexp{
 	"cssB":    regexp.MustCompile(`^\.(boxed_[0-9a-f]{8})\{color:red;--brandColor:blue;\}$`),
+	"cssT":    regexp.MustCompile(`^\.(tinted_[0-9a-f]{8})\{--accentColor:green;\}$`),
 	"scriptG": regexp.MustCompile(`^function (__templ_greet_[0-9a-f]{4})\(a\)\{alert\(a\);\s*\}$`),
 }
 
@@ -290,7 +291,7 @@ func expand(toks []templang.Tok) []templang.Tok {
 		if t.T == "def" {
 			// a definition written in front of a start tag: <style type="text/css">...</style> or <script>...</script>
 			el, attrs := "script", []templang.TokAttr(nil)
-			if t.N == "cssB" {
+			if t.N == "cssB" || t.N == "cssT" {
 				el, attrs = "style", []templang.TokAttr{{N: "type", V: "textcss"}}
 			}
 			out = append(out, templang.Tok{T: "open", N: el, G: t.G, Attrs: attrs}, templang.Tok{T: "deftext", N: t.N, G: "mustnot"}, templang.Tok{T: "close", N: el, G: "mustnot"})
@@ -338,6 +339,9 @@ func match(toks []templang.Tok, items []item) (ok bool, why string) {
 			if t.N == "cssB" && m[1] != templang.CSSClassID("boxed", "color:red;--brandColor:blue;") {
 				return false, fmt.Sprintf("%s: class id %q is not name + hash of the css text (%q)", where, m[1], templang.CSSClassID("boxed", "color:red;--brandColor:blue;"))
 			}
+			if t.N == "cssT" && m[1] != templang.CSSClassID("tinted", "--accentColor:green;") {
+				return false, fmt.Sprintf("%s: class id %q is not name + hash of the css text (%q)", where, m[1], templang.CSSClassID("tinted", "--accentColor:green;"))
+			}
 			c.bound[t.N] = m[1]
 			c.i++
 			c.off = 0
@@ -355,10 +359,12 @@ func match(toks []templang.Tok, items []item) (ok bool, why string) {
 					switch a.V {
 					case "CSSB":
 						want = c.bound["cssB"]
+					case "CSST":
+						want = c.bound["cssT"]
 					case "SCRG":
 						want = c.bound["scriptG"] + `("x")`
 					}
-					if ra.Key != strings.ToLower(a.N) || ra.Val != want || want == "" && (a.V == "CSSB" || a.V == "SCRG") {
+					if ra.Key != strings.ToLower(a.N) || ra.Val != want || want == "" && (a.V == "CSSB" || a.V == "CSST" || a.V == "SCRG") {
 						return false, fmt.Sprintf("%s: attribute %d is %s=%q, expected %s=%q", where, ai+1, ra.Key, ra.Val, strings.ToLower(a.N), want)
 					}
 				}
